@@ -17,6 +17,7 @@ type Config struct {
 	FeasMs      int
 	ObligMs     int
 	MaxConcrete int // max values when concretising a symbolic integer
+	PruneFrom   int // loop-exit branches are pruned by the solver from this iteration on
 }
 
 type jent struct {
@@ -29,6 +30,9 @@ type funcInfo struct {
 	reg   map[ssa.Value]int
 	nregs int
 	ipdom map[*ssa.BasicBlock]*ssa.BasicBlock // nil entry => exit
+	scc      map[*ssa.BasicBlock]int // some loop the block is in (0 if none)
+	prune    map[*ssa.BasicBlock]bool
+	backedge map[[2]int]bool
 }
 
 type Frame struct {
